@@ -94,6 +94,80 @@ func badBackrefRules() lexer.Rules {
 	}
 }
 
+// Definitions whose rules can match the empty string: the constructor accepts them; the lexer's
+// empty-match guards must turn them into errors, never into empty tokens or a stall.
+func nullableElidedRules() lexer.Rules {
+	return lexer.Rules{"Root": {
+		{Name: "Ident", Pattern: `[a-z]+`},
+		{Name: "Punct", Pattern: `[=;]`},
+		{Name: "whitespace", Pattern: `\s*`},
+	}}
+}
+
+func nullableTokenRules() lexer.Rules {
+	return lexer.Rules{"Root": {
+		{Name: "Ident", Pattern: `[a-z]+`},
+		{Name: "Punct", Pattern: `[=;]`},
+		{Name: "space", Pattern: `\s+`},
+		{Name: "Stars", Pattern: `\**`},
+	}}
+}
+
+func nullableActionRules() lexer.Rules {
+	return lexer.Rules{
+		"Root": {
+			{Name: "Word", Pattern: `[a-z]+`},
+			{Name: "space", Pattern: `\s+`},
+			{Name: "Open", Pattern: `\(?`, Action: lexer.Push("Group")},
+		},
+		"Group": {
+			{Name: "Word", Pattern: `[a-z]+`},
+			{Name: "space", Pattern: `\s+`},
+			{Name: "Close", Pattern: `\)?`, Action: lexer.Pop()},
+		},
+	}
+}
+
+// unitsRules exercises the regular-expression operators the lexer generator translates: literal
+// alternations behind a consuming prefix, case folding, classes, '.', optional and repeated
+// groups, word boundaries, captures.
+func unitsRules() lexer.Rules {
+	return lexer.Rules{"Root": {
+		{Name: "Dimension", Pattern: `\d+(?:px|em|rem|%)`},
+		{Name: "Keyword", Pattern: `(?i)\b(?:select|from|where)\b`},
+		{Name: "Float", Pattern: `\d+\.\d+(?:[eE][-+]?\d+)?`},
+		{Name: "Int", Pattern: `\d+`},
+		{Name: "Quoted", Pattern: `'(?:\\.|[^'\\])*'`},
+		{Name: "Tag", Pattern: `</?[a-z]+(?:\s[a-z]+)*>`},
+		{Name: "Ident", Pattern: `[a-zA-Z_\p{L}][\w-]*`},
+		{Name: "Arrow", Pattern: `->|=>|<-|<=>`},
+		{Name: "Range", Pattern: `\.\.\.?`},
+		{Name: "Esc", Pattern: `\\(?:.|\n)`},
+		{Name: "LineEnd", Pattern: `;[^\n]*$`},
+		{Name: "Op", Pattern: `[-+*/=<>!]=?`},
+		{Name: "Pair", Pattern: `(\w):(\w)?`},
+		{Name: "space", Pattern: `\s+`},
+	}}
+}
+
+// optGroupRules: an action rule with an optional capture group (shell-style <<-EOF heredocs).
+func optGroupRules() lexer.Rules {
+	return lexer.Rules{
+		"Root": {
+			{Name: "Heredoc", Pattern: `<<(-)?(\w+)\b`, Action: lexer.Push("Body")},
+			lexer.Include("Common"),
+		},
+		"Body": {
+			{Name: "End", Pattern: `\b\2\b`, Action: lexer.Pop()},
+			lexer.Include("Common"),
+		},
+		"Common": {
+			{Name: "whitespace", Pattern: `\s+`},
+			{Name: "Ident", Pattern: `\w+`},
+		},
+	}
+}
+
 func mustRules(r lexer.Rules) lexer.Definition {
 	d, err := lexer.New(r)
 	if err != nil {
@@ -125,6 +199,16 @@ var lexDefs = []*lexDef{
 		corpus: []string{`"hello ${user + "${last}"}"`, `"a\"b$c${x * "y"}"`, `"${"${"${1}"}"}"`, `"unterminated ${x`, `"esc\`, ""}},
 	{name: "badbackref", rules: badBackrefRules, build: func() lexer.Definition { return mustRules(badBackrefRules()) },
 		corpus: []string{"a b <<END x END", "a % b !", "% %", "x <<Q", ""}},
+	{name: "nullable-elided", rules: nullableElidedRules, genName: "NullableElided", build: func() lexer.Definition { return mustRules(nullableElidedRules()) },
+		corpus: []string{"a = b;", "a = $b", "a  ;  ", "%", ""}},
+	{name: "nullable-token", rules: nullableTokenRules, genName: "NullableToken", build: func() lexer.Definition { return mustRules(nullableTokenRules()) },
+		corpus: []string{"a = ** b;", "a ? b", "***", "a=b $", ""}},
+	{name: "nullable-actions", rules: nullableActionRules, genName: "NullableActions", build: func() lexer.Definition { return mustRules(nullableActionRules()) },
+		corpus: []string{"a (b c) d", "a ( b", "a ) b", "(a (b)) !", "a $ b", ""}},
+	{name: "units", rules: unitsRules, genName: "Units", build: func() lexer.Definition { return mustRules(unitsRules()) },
+		corpus: []string{"10px 12 3.5em 7% 1.5e-3 2rem", "select a-b FROM 'it\\'s' where x<=>y -> z", "<div class> text </div> a..b a...b \\n \\", "x:y z: ; comment\nünï 'open", "10p 1.e 1.5e+ <a  'q\\", ""}},
+	{name: "optgroup", rules: optGroupRules, build: func() lexer.Definition { return mustRules(optGroupRules()) },
+		corpus: []string{"a <<-END x y END b", "a <<END x END b", "<<- x", "<<E", ""}},
 	{name: "basic-runtime", build: basicRuntimeDef, genName: "",
 		corpus: []string{" 5  PRINT \"Factorial of:\"\n10  LET B = 1\n40  IF A <= 1 THEN 80\n", "10 LET X = ( 1 + ( 2 * Y ) ) / 3.5\n20 print \"ünï\\\"cødé\" + X\n", "10 REM comment\n20 PRINT \"open", ""}},
 	{name: "basic-generated", build: func() lexer.Definition { return verifshim.GeneratedBasicLexer() },
